@@ -503,6 +503,54 @@ def run(chk):
             if not canon_equal(got, want):
                 chk.violation(r_op, "formula:" + name, "OPERATE %s computes %s; the documented operation is %s" % (name, got, want), f["file"], rets[0]["l"])
 
+    # ---- C12.siscalar: the scalar of an operation keyword enters the arrays in SI units
+    r_si = chk.rule("C12.siscalar", "in FieldProps every floating-point number taken from an operation record (item.get<double>(0)) goes through the unit conversion of the target array - getSIValue(operation, keyword, value), or get_alpha / get_beta for OPERATE, which call it - before it is applied; for an integer array it is converted to int instead.  The box handler and the region handler therefore apply the same value for the same record (ADD 50 mD is 50 mD in both)", floor=4)
+    SI_FN = {"getSIValue", "get_alpha", "get_beta"}
+    n_sc = 0
+    for f in fns:
+        if not (f.get("cls") or "").endswith("FieldProps") or not f.get("body") or not re.fullmatch(r"handle_(operation|region_operation|OPERATE|operateR|operate|COPY)|operate", f["n"]):
+            continue        # only the handlers of the operation keywords (MULTREGP and friends read dimensionless multipliers)
+        pmf = {}
+        for x in walk(f["body"]):
+            for ch in children(x):
+                pmf[id(ch)] = x
+        for n in walk(f["body"]):
+            if n["k"] != "MCall" or n.get("m") != "get" or (n.get("targs") or [None])[0] != "double":
+                continue
+            o_ = strip(n.get("obj") or {})
+            if not (o_.get("k") == "MCall" and o_.get("m") == "getItem"):
+                continue
+            n_sc += 1
+            how = None
+            p_ = pmf.get(id(n))
+            child = n
+            while p_ is not None:
+                nm_ = p_.get("m") or (p_.get("fn") or "").split("::")[-1] if p_.get("k") in ("MCall", "Call") else None
+                if nm_ in SI_FN and any(x is child or any(y is child for y in walk(x)) for x in (p_.get("a") or [])):
+                    how = nm_
+                    break
+                if p_.get("k") == "Cast" and (p_.get("t") or "") in ("int", "const int"):
+                    how = "int"
+                    break
+                child, p_ = p_, pmf.get(id(p_))
+            key = "%s@%d" % (f["n"], n["l"] - f["l"])
+            chk.instance(r_si, key, sample=dict(function=f["q"], value=show(n)[:70], converted_by=how))
+            if how is None:
+                chk.violation(r_si, key, "%s applies `%s` as it stands in the record: the number is in deck units while the array is kept in SI (ADDREG PERMX 50 would add 50 m2 instead of 50 mD), and the box variant of the same keyword converts it" % (f["q"], show(n)[:70]), f["file"], n["l"])
+    if n_sc < 4:
+        raise core.AnalysisBroken("FieldProps: fewer than 4 record scalars found (%d)" % n_sc)
+    gs = [f for f in fns if f["n"] == "getSIValue" and len(f.get("params") or []) == 3 and f.get("body")]
+    okg = False
+    if len(gs) == 1:
+        rets = [r_ for r_ in walk(gs[0]["body"]) if r_["k"] == "Return" and r_.get("e") is not None]
+        if len(rets) == 1 and strip(rets[0]["e"]).get("k") == "Cond":
+            c_, a_, b_ = [strip(x) for x in strip(rets[0]["e"])["c"]]
+            pn_ = gs[0]["params"][2]["n"]
+            okg = re.sub(r"\b\w+::", "", show(c_)).replace(" ", "") in ("(%s==MUL)" % gs[0]["params"][0]["n"], "(MUL==%s)" % gs[0]["params"][0]["n"]) and show(a_) == pn_ and "getSIValue" in show(b_)
+    chk.instance(r_si, "getSIValue", sample=dict(multiplier_unconverted_everything_else_converted=okg))
+    if not okg:
+        chk.violation(r_si, "getSIValue", "getSIValue(op, keyword, value) must return the value unchanged exactly for MUL (a multiplier has no unit) and the converted value for every other operation", gs[0]["file"] if gs else None, gs[0]["l"] if gs else None)
+
     # ---- C12.dispatch: which handler a keyword of the property sections reaches
     r_dp = chk.rule("C12.dispatch", "FieldProps::handle_keyword sends each class of operation keyword to its own handler: ADD/EQUALS/MAXVALUE/MINVALUE/MULTIPLY (oper_keywords) -> handle_operation, OPERATE -> handle_OPERATE, the region variants (region_oper_keywords) -> handle_region_operation, BOX/ENDBOX -> handle_box_keyword, COPY/COPYREG -> handle_COPY (region flag set exactly for COPYREG); membership is tested with count(name) == 1 / name == keywordName", floor=5)
     hk = [f for f in fns if f["n"] == "handle_keyword" and (f.get("cls") or "").endswith("FieldProps")]
